@@ -72,10 +72,10 @@ func c01(r *mon.R) {
 	}
 	var jobs []job
 	for _, g := range gs {
-		nprog := r.N(8, 200)
-		ntab := r.N(6, 150)
+		nprog := r.N(30, 300)
+		ntab := r.N(20, 200)
 		if g.Kind == "GT" {
-			nprog, ntab = r.N(3, 60), r.N(2, 40)
+			nprog, ntab = r.N(8, 80), r.N(5, 50)
 		}
 		for i := 0; i < nprog; i++ {
 			jobs = append(jobs, job{g, "prog", i})
@@ -157,6 +157,14 @@ func c01Program(r *mon.R, g *groups.G, idx int) {
 		var res kyber.Point
 		nk := zero()
 		var op string
+		// receiver: usually fresh; one step in three writes in place into the object currently held by the target slot
+		// (a result that shares internal state with an operand or with a library constant is then corrupted)
+		recv := func() kyber.Point {
+			if rng.IntN(3) == 0 {
+				return vars[d].p
+			}
+			return g.Point()
+		}
 		allNull := false
 		isNull := func(k []*big.Int) bool {
 			for _, x := range k {
@@ -169,21 +177,21 @@ func c01Program(r *mon.R, g *groups.G, idx int) {
 		switch c := rng.IntN(12); c {
 		case 0, 1:
 			op = "Add"
-			res = g.Point().Add(va.p, vb.p)
+			res = recv().Add(va.p, vb.p)
 			for i := range nk {
 				nk[i].Add(va.k[i], vb.k[i]).Mod(nk[i], g.Q)
 			}
 			allNull = isNull(va.k) && isNull(vb.k)
 		case 2:
 			op = "Sub"
-			res = g.Point().Sub(va.p, vb.p)
+			res = recv().Sub(va.p, vb.p)
 			for i := range nk {
 				nk[i].Sub(va.k[i], vb.k[i]).Mod(nk[i], g.Q)
 			}
 			allNull = isNull(va.k) && isNull(vb.k)
 		case 3:
 			op = "Neg"
-			res = g.Point().Neg(va.p)
+			res = recv().Neg(va.p)
 			for i := range nk {
 				nk[i].Neg(va.k[i]).Mod(nk[i], g.Q)
 			}
@@ -191,7 +199,7 @@ func c01Program(r *mon.R, g *groups.G, idx int) {
 		case 4, 5, 6:
 			sc := rng.EdgeOrRandom(edge, g.Q, 150)
 			op = "Mul(" + sc.Text(16) + ")"
-			res = g.Point().Mul(g.ScalarFromBig(sc), va.p)
+			res = recv().Mul(g.ScalarFromBig(sc), va.p)
 			for i := range nk {
 				nk[i].Mul(va.k[i], sc).Mod(nk[i], g.Q)
 			}
@@ -207,18 +215,18 @@ func c01Program(r *mon.R, g *groups.G, idx int) {
 			nk[0].Set(sc)
 		case 8:
 			op = "Double"
-			res = g.Point().Add(va.p, va.p)
+			res = recv().Add(va.p, va.p)
 			for i := range nk {
 				nk[i].Lsh(va.k[i], 1).Mod(nk[i], g.Q)
 			}
 			allNull = isNull(va.k)
 		case 9:
 			op = "SubSelf"
-			res = g.Point().Sub(va.p, va.p)
+			res = recv().Sub(va.p, va.p)
 		case 10:
 			if rng.IntN(2) == 0 {
 				op = "Null"
-				res = g.Point().Null()
+				res = recv().Null()
 				allNull = true
 			} else {
 				op = "Gen"
@@ -227,7 +235,7 @@ func c01Program(r *mon.R, g *groups.G, idx int) {
 			}
 		case 11:
 			op = "Set"
-			res = g.Point().Set(va.p)
+			res = recv().Set(va.p)
 			for i := range nk {
 				nk[i].Set(va.k[i])
 			}
